@@ -14,6 +14,8 @@ git -C /repo worktree add -q --detach $scratch HEAD || exit 2
 mkdir -p $scratch/SEED && cp -r $src/SEED/. $scratch/SEED/
 cd $scratch
 demo_cmd=$(jq -r .demo_cmd SEED/meta.json)
+if [ -n "${3:-}" ]; then demo_cmd="$3"; fi
+echo "== demo_cmd: $demo_cmd"
 res() { echo "== $1"; }
 ok=1
 git apply SEED/patch.diff || { res "patch does not apply"; ok=0; }
@@ -35,7 +37,7 @@ if [ $ok = 1 ]; then
 fi
 if [ $ok = 1 ]; then
   mkdir -p /verif/seeded/$id && cp -r SEED/. /verif/seeded/$id/
-  jq --arg pk "$pkgs" --arg cmd "$demo_cmd" '. + {confirmed: {patch_applies_at: "/repo HEAD (with fix: commits)", build: "go build ./... ok", demo_with_patch: "fails", demo_without_patch: "passes", tests_with_patch: ("go test -count=1 " + $pk + " ok")}}' SEED/meta.json > /verif/seeded/$id/meta.json
+  jq --arg pk "$pkgs" --arg cmd "$demo_cmd" '. + {demo_cmd: $cmd, confirmed: {patch_applies_at: "/repo HEAD (with fix: commits)", build: "go build ./... ok", demo_with_patch: "fails", demo_without_patch: "passes", tests_with_patch: ("go test -count=1 " + $pk + " ok")}}' SEED/meta.json > /verif/seeded/$id/meta.json
   res "CONFIRMED -> /verif/seeded/$id"
 else
   res "NOT CONFIRMED"
